@@ -7,6 +7,7 @@ import GontainerModel.Props.C08
 #print axioms GM.C08.perm_invariant_processed
 #print axioms GM.C08.perm_invariant_scope_table
 #print axioms GM.C08.sites_covered
+#print axioms GM.C08.sort_sites_pinned
 #print axioms GM.C08.no_ambient_inputs
 #print axioms GM.C08.key_order_params
 #print axioms GM.C08.key_order_services
